@@ -1,4 +1,4 @@
-(* C07 — SSM serial optimiser returns minimising levels and their true expected cost.   LEVEL: PARTIAL.
+(* C07 — SSM serial optimiser returns minimising levels and their true expected cost.   LEVEL: PARTIAL (vector optimality).
    Statements only; every proof is [exact <lemma of Alg/SSM_proofs.v>].
    Model: Alg/SSM.v ([ssm] = the stage loop of stockpyl.ssm_serial.optimize_base_stock_levels on an integer-spaced
    grid, stages in the code's internal order 1 = downstream .. N = upstream; [ssm_params] adds the node re-indexing
@@ -6,10 +6,11 @@
    PROVED here: the table equations of the recursion, grid-argmin at every stage for every N, evaluation mode with
    S := S* reproduces the optimiser's outputs, N = 1 is the newsvendor cost and S*_1 minimises it on the grid,
    relabelling / list-order invariance of the preprocessing and of the end-to-end result.
-   NOT PROVED (kept as Definitions, checked by the Python oracle only — search, not proof):
-   [ssm_cost_is_long_run_cost_statement], [shang_song_bounds_statement]; optimality of the level VECTOR over all
-   vectors (it follows from the first of these plus the Clark-Scarf decomposition) is likewise search only. *)
-From SV Require Import Base.Qx Alg.SSM Alg.SSM_proofs.
+   Also PROVED (Alg/SSMCost_proofs.v): the cost reported for given levels equals the exact expected holding + stockout cost of
+   operating them (Clark-Scarf decomposition against the independent top-down enumeration, C07_ssm_cost_is_long_run_cost)
+   and the Shang-Song newsvendor fractiles bracket every S*_j (C07_shang_song_bounds).
+   NOT PROVED (checked by the Python oracle only — search, not proof): optimality of the level VECTOR over all vectors. *)
+From SV Require Import Base.Qx Alg.SSM Alg.SSM_proofs Alg.SSMCost_proofs.
 Require Import Coq.Sorting.Permutation.
 
 Section C07.
@@ -86,17 +87,18 @@ Theorem C07_list_order_invariant (order_sys ol ol' : list nat) (vals vals' : lis
   preprocess order_sys ol vals = preprocess order_sys ol' vals'.
 Proof. exact (preprocess_list_order order_sys ol ol' vals vals'). Qed.
 
-(* ---- full statements that are NOT proved (oracle / search only) ---- *)
+(* ---- the Clark-Scarf decomposition and the Shang-Song bracket (Alg/SSMCost_proofs.v; closed under the global context) ---- *)
 (* the cost reported for given levels on the grid is the exact expected holding + stockout cost of operating them
    (top-down evaluation: IP_j = min(S_j, IL_{j+1}), IL_j = IP_j - D_j), for exactly represented finite-support demand *)
-Definition ssm_cost_is_long_run_cost_statement : Prop :=
+Theorem C07_ssm_cost_is_long_run_cost :
   forall xlo xnum xext p mu stages lv,
     exact_instance xlo xext mu stages -> length lv = length stages -> stages <> [] ->
     Forall (fun l => (xlo <= l <= xhi xlo xnum)%Z) lv ->
     ssm_cost xlo xnum xext p mu (with_levels stages lv) ==
     topdown p (qsum (map sg_h stages)) (rev (combine stages lv)) None.
+Proof. exact ssm_cost_is_long_run_cost. Qed.
 (* Shang-Song: the newsvendor fractiles of the demand over L_1+..+L_j bracket S*_j *)
-Definition shang_song_bounds_statement : Prop :=
+Theorem C07_shang_song_bounds :
   forall xlo xnum xext p mu stages,
     exact_instance xlo xext mu stages -> optimising stages -> 0 < p -> Forall (fun sg => 0 < sg_h sg) stages ->
     forall j g yl yu,
@@ -107,6 +109,7 @@ Definition shang_song_bounds_statement : Prop :=
       is_fractile g ((p + Hup) / (p + Hall)) yl -> is_fractile g ((p + Hup) / (p + Hge)) yu ->
       (xlo <= yl)%Z -> (yu <= xhi xlo xnum)%Z ->
       (yl <= nth j (ssm_levels xlo xnum xext p mu stages) 0 <= yu)%Z.
+Proof. exact shang_song_bounds. Qed.
 
 (* non-vacuity: Example-6.1-like 3-stage instance, demand uniform on {0,1,2,3}, L = (1,1,2), h = (3,2,2), p = 20;
    the hypotheses of the statements hold, the optimiser returns (3,5,8) with cost 3183/128, a neighbouring vector is
@@ -134,3 +137,5 @@ Print Assumptions C07_reported_cost_is_cost_of_levels.
 Print Assumptions C07_one_stage_is_newsvendor.
 Print Assumptions C07_relabel_invariant.
 Print Assumptions C07_list_order_invariant.
+Print Assumptions C07_ssm_cost_is_long_run_cost.
+Print Assumptions C07_shang_song_bounds.
